@@ -16,6 +16,8 @@ import (
 // (GC off, GOMAXPROCS 1): the number of mallocs and which capacities changed are compared with the sites
 // the Coq allocation model predicts from the observed capacities.  Property oracle: when P is at least
 // as large as C in every dimension the operation uses, the measured number of allocations is zero.
+// MemStats.Mallocs is process-wide: a scenario that shows an allocation is run again from fresh values
+// (runAllocCaseStable) and the allocation counts only if it shows every time.
 
 func init() {
 	props["C20"] = runC20
@@ -45,6 +47,45 @@ func mallocsStable(f func()) int {
 		}
 	}
 	return n
+}
+
+// strayRemeasured counts the measurements that were repeated because the first one showed an allocation
+// (reported in the evidence as "remeasured-after-allocation" / "stray-allocation-did-not-repeat").
+var strayRemeasured, strayVanished int
+
+// runAllocCaseStable: runtime.MemStats.Mallocs counts the whole process, and the runtime itself allocates
+// now and then (an EMPTY interval between two ReadMemStats calls shows one malloc about once in 10^5..10^6
+// intervals on a loaded machine, GC off, one P: see emptyIntervalProbe).  An allocation that belongs to the
+// operation is a function of the scenario (fresh Message / destination, same warm-up, same data) and shows
+// again when the whole scenario is run again from fresh values; one of the runtime does not.  So a scenario
+// whose "anything allocated" bit is set is run again, from scratch, up to two more times, and the observation
+// without an allocation is taken if there is one.  Capacity bits are deterministic and equal in every run.
+func runAllocCaseStable(op []int, prior, cur []string, priorData, curData, key []byte) (obs []int, capsUsed []int) {
+	obs, capsUsed = runAllocCase(op, prior, cur, priorData, curData, key)
+	if len(obs) == 0 || obs[len(obs)-1] != 1 {
+		return obs, capsUsed
+	}
+	strayRemeasured++
+	for k := 0; k < 2; k++ {
+		obs2, caps2 := runAllocCase(op, prior, cur, priorData, curData, key)
+		if len(obs2) == len(obs) && obs2[len(obs2)-1] == 0 {
+			strayVanished++
+			return obs2, caps2
+		}
+	}
+	return obs, capsUsed
+}
+
+// emptyIntervalProbe: how many of n empty intervals between two ReadMemStats calls show an allocation
+// (calibration of the measurement, reported in the evidence; nothing of pion/stun runs in the interval)
+func emptyIntervalProbe(n int) int {
+	stray := 0
+	for i := 0; i < n; i++ {
+		if mallocs(func() {}) > 0 {
+			stray++
+		}
+	}
+	return stray
 }
 
 // allocShape: the setter fields of a well-formed message (no refusals): sizes up to the attribute limits
@@ -287,6 +328,17 @@ func runAllocCase(op []int, prior, cur []string, priorData, curData, key []byte)
 // reconstructed by pre-sizing the Message / destination to exactly those capacities, and the operation is
 // measured again.
 func execAllocCase(o *out, f [][]int) []int {
+	// as runAllocCaseStable: an allocation that does not show again on the same case from fresh values is the runtime's
+	obs := execAllocCaseOnce(o, f)
+	for k := 0; k < 2 && len(obs) > 0 && obs[len(obs)-1] == 1; k++ {
+		if obs2 := execAllocCaseOnce(o, f); len(obs2) == len(obs) && obs2[len(obs2)-1] == 0 {
+			return obs2
+		}
+	}
+	return obs
+}
+
+func execAllocCaseOnce(o *out, f [][]int) []int {
 	oldProcs := runtime.GOMAXPROCS(1)
 	oldGC := debug.SetGCPercent(-1)
 	defer func() { runtime.GOMAXPROCS(oldProcs); debug.SetGCPercent(oldGC) }()
@@ -441,7 +493,7 @@ func runC20(o *out, thorough bool, r *rng, _ []string) map[string]interface{} {
 		midData = datas[1]
 		for _, op := range []int{3, 4} {
 			runAllocCase([]int{op}, nil, nil, datas[0], datas[2], nil) // warm the pools and the runtime for this shape
-			obs, caps := runAllocCase([]int{op}, nil, nil, datas[0], datas[2], nil)
+			obs, caps := runAllocCaseStable([]int{op}, nil, nil, datas[0], datas[2], nil)
 			needs := map[int]int{0: 4, 1: 16, 2: 16}
 			if caps[0] >= needs[ks[2]] && obs[len(obs)-1] != 0 {
 				o.failFor("C20", "warm-op-allocates", fmt.Sprintf("x address getter %d: destination of capacity %d, messages with address kinds %v (0 IPv4, 1 IPv6, 2 IPv4-mapped IPv6): previous %s between %s current %s", op, caps[0], ks, fHex(datas[0]), fHex(datas[1]), fHex(datas[2])))
@@ -619,34 +671,34 @@ func runC20(o *out, thorough bool, r *rng, _ []string) map[string]interface{} {
 		}
 		// decode (both entry points)
 		for _, entry := range []int{0, 1} {
-			obs, caps := runAllocCase([]int{1, entry}, nil, nil, priorData, curData, nil)
+			obs, caps := runAllocCaseStable([]int{1, entry}, nil, nil, priorData, curData, nil)
 			emit([]int{1}, caps, []string{fHex(curData)}, obs, "decode")
 		}
 		// text getters
 		t := textTypesN[r.intn(4)]
-		obs, caps := runAllocCase([]int{2, t}, nil, nil, priorData, curData, nil)
+		obs, caps := runAllocCaseStable([]int{2, t}, nil, nil, priorData, curData, nil)
 		emit([]int{2, t}, caps, []string{fHex(curData)}, obs, "text-getter")
-		obs, caps = runAllocCase([]int{3}, nil, nil, priorData, curData, nil)
+		obs, caps = runAllocCaseStable([]int{3}, nil, nil, priorData, curData, nil)
 		emit([]int{3, 0x0020}, caps, []string{fHex(curData)}, obs, "xor-getter")
-		obs, caps = runAllocCase([]int{4}, nil, nil, priorData, curData, nil)
+		obs, caps = runAllocCaseStable([]int{4}, nil, nil, priorData, curData, nil)
 		emit([]int{4, 0x0001}, caps, []string{fHex(curData)}, obs, "mapped-getter")
-		obs, caps = runAllocCase([]int{5}, nil, nil, priorData, curData, nil)
+		obs, caps = runAllocCaseStable([]int{5}, nil, nil, priorData, curData, nil)
 		emit([]int{5}, caps, []string{fHex(curData)}, obs, "errorcode-getter")
-		obs, caps = runAllocCase([]int{6}, nil, nil, priorData, curData, nil)
+		obs, caps = runAllocCaseStable([]int{6}, nil, nil, priorData, curData, nil)
 		emit([]int{6}, caps, []string{fHex(curData)}, obs, "unknown-getter")
 		// checks and lookups: warm whatever came before
 		key := r.bytes(r.pick([]int{0, 1, 20, 63, 64, 65, 100, 200, 300}))
-		obs, caps = runAllocCase([]int{8}, nil, nil, priorData, curData, key)
+		obs, caps = runAllocCaseStable([]int{8}, nil, nil, priorData, curData, key)
 		emit([]int{8}, caps, []string{fHex(curData), fHex(key)}, obs, fmt.Sprintf("integrity-check spare=%d keylen=%d", caps[0]-len(curData), len(key)))
 		wasWarm := warm
 		warm = true
-		obs, _ = runAllocCase([]int{7}, nil, nil, nil, curData, nil)
+		obs, _ = runAllocCaseStable([]int{7}, nil, nil, nil, curData, nil)
 		emit([]int{7}, nil, []string{fHex(curData)}, obs, "fingerprint-check")
-		obs, _ = runAllocCase([]int{9}, nil, nil, nil, curData, nil)
+		obs, _ = runAllocCaseStable([]int{9}, nil, nil, nil, curData, nil)
 		emit([]int{9}, nil, []string{fHex(curData)}, obs, "get-contains")
 		warm = wasWarm
 		// build with prepared setters
-		obs, caps = runAllocCase([]int{10}, prior.fields, cur.fields, nil, nil, nil)
+		obs, caps = runAllocCaseStable([]int{10}, prior.fields, cur.fields, nil, nil, nil)
 		maxUnknown := 0
 		for _, f := range cur.fields {
 			if pf := parseField(f); len(pf) > 0 && pf[0] == 9 && len(pf)-1 > maxUnknown {
@@ -731,5 +783,9 @@ func runC20(o *out, thorough bool, r *rng, _ []string) map[string]interface{} {
 		o.countN("concurrent-integrity-checks", total)
 	}
 	runtime.GOMAXPROCS(1)
+	o.countN("measurement:remeasured-after-allocation", strayRemeasured)
+	o.countN("measurement:allocation-did-not-repeat-on-the-same-scenario", strayVanished)
+	o.countN("measurement:empty-intervals-probed", 20000)
+	o.countN("measurement:empty-intervals-with-an-allocation", emptyIntervalProbe(20000))
 	return map[string]interface{}{"exhaustive": false}
 }
